@@ -224,6 +224,10 @@ def _mk_union(ms):
 
 
 def _mk_generic(kind, base, ps):
+  # `tuple[Any, ...]` / `list[Any]` and the bare class are one type (a bare generic class means Any parameters): the
+  # model spells the bare class with its Any parameters, the real code keeps what the stub said
+  if kind == "g" and ps and all(p == ("A",) for p in ps):
+    return base
   # type[Union[X, Y]] is the optimiser's spelling of Union[type[X], type[Y]] (CombineContainers)
   if kind == "g" and base == ("n", "type") and len(ps) == 1 and ps[0][0] == "u":
     return _mk_union([("g", base, (m,)) for m in ps[0][1]])
